@@ -62,6 +62,12 @@ def harness(cfg, B):
         # lemma chain: the wave-speed estimates of every face are located in the traced DAG (hints), cut to variables and only
         # their defining min/max inequalities and the bound by the one-sided speeds are kept (each proved on the real terms first)
         hints, facts = [], []
+        if mname == 'shallowwater':
+            # the celerities are cut as well (c_j > 0 is all that is kept of c_j^2 = g h_j): the cut problem is sqrt-free
+            for j in range(n):
+                cj = np.sqrt(model.g * prim[0][j])
+                hints.append(cj)
+                facts.append(cj > 0)
         for fc in range(n):
             L_, R_ = (fc - 1) % n, fc % n
             if mname == 'shallowwater':
